@@ -31,6 +31,12 @@ class FakeTime:
     def time(self):
         return self.now
 
+    def monotonic(self):
+        return self.now - 777.0       # another epoch: schedules made with one clock and compared with the other show
+
+    def perf_counter(self):
+        return self.now - 555.0
+
     def sleep(self, _):
         pass
 
@@ -159,6 +165,12 @@ class SimTime:
 
     def time(self):
         return self.now
+
+    def monotonic(self):
+        return self.now - 777.0       # another epoch than time()
+
+    def perf_counter(self):
+        return self.now - 555.0
 
     def sleep(self, d):
         self.steps += 1
